@@ -252,8 +252,12 @@ class Canon(object):
         subst = {}
         for name, d in defs.items():
             v = d.value
-            if isinstance(v, (ast.Constant, ast.Name)):
-                continue            # plain copies / constants are left to the alias resolution of the rules
+            if isinstance(v, ast.Constant):
+                continue
+            if isinstance(v, ast.Name):
+                # a plain copy `x = y`: propagated only when y is itself a local assigned exactly once (an extracted-helper result)
+                if not (v.id in once and v.id != name):
+                    continue
             if simple(v, (stable | once) - {name}) and not any(isinstance(p, (ast.For, ast.While, ast.AsyncFor)) for p in _parents(fn, d)):
                 subst[name] = d
         if not subst:
@@ -335,7 +339,7 @@ class Canon(object):
                 if indep:
                     for t, v in zip(s.targets[0].elts, s.value.elts):
                         t2 = copy.deepcopy(t)
-                        out.append(ast.copy_location(ast.Assign(targets=[t2], value=v), s))
+                        out.extend(self.expand([ast.copy_location(ast.Assign(targets=[t2], value=v), s)]))
                     self.hit('N19')
                     continue
             # N20 except (A, B): X  ->  except A: X  except B: X
@@ -379,6 +383,7 @@ class Canon(object):
                 for h in s.handlers:
                     h.body = self.block(h.body)
         body = self.tidy(body, True)
+        n25 = self.count.get('N25', 0)
         # right to left, so that what follows an `if` is already in canonical form when the `if` is looked at
         out = []
         for s in reversed(body):
@@ -386,7 +391,10 @@ class Canon(object):
                 out = self.norm_if(s, out)
             else:
                 out = [s] + out
-        return self.tidy(out, False)
+        out = self.tidy(out, False)
+        if self.count.get('N25', 0) != n25:
+            return self.block(out)          # an if/else collapsed into an assignment: it may now fold into the test that follows
+        return out
 
     def tidy(self, out, first=True):
         # N10
@@ -411,11 +419,29 @@ class Canon(object):
                 t = res[-1].targets[0].id
                 core = s.test.operand if (isinstance(s.test, ast.UnaryOp) and isinstance(s.test.op, ast.Not)) else s.test
                 if isinstance(core, ast.Name) and core.id == t and \
-                        len([n for n in ast.walk(self.fns[-1]) if isinstance(n, ast.Name) and n.id == t]) == 2:
+                        len([n for n in ast.walk(self.fns[-1]) if isinstance(n, ast.Name) and n.id == t and isinstance(n.ctx, ast.Load)]) == 1:
                     a = res.pop()
-                    v = self.ex.visit(negate(a.value)) if core is not s.test else a.value
+                    av = a.value
+                    if isinstance(av, ast.Call) and isinstance(av.func, ast.Name) and av.func.id == 'bool' and len(av.args) == 1 and not av.keywords:
+                        av = av.args[0]          # truthiness is all an if-test looks at
+                    v = self.ex.visit(negate(av)) if core is not s.test else av
                     s.test = v
                     self.hit('N22')
+            res.append(s)
+        out = res
+        # N26  L.append(X) ; return S.join(L)  ->  return S.join(L + [X])
+        res = []
+        for s in out:
+            if res and isinstance(s, ast.Return) and isinstance(s.value, ast.Call) and isinstance(s.value.func, ast.Attribute) and s.value.func.attr == 'join' \
+                    and len(s.value.args) == 1 and isinstance(s.value.args[0], ast.Name) and not s.value.keywords \
+                    and isinstance(res[-1], ast.Expr) and isinstance(res[-1].value, ast.Call) and isinstance(res[-1].value.func, ast.Attribute) \
+                    and res[-1].value.func.attr == 'append' and isinstance(res[-1].value.func.value, ast.Name) \
+                    and res[-1].value.func.value.id == s.value.args[0].id and len(res[-1].value.args) == 1:
+                a = res.pop()
+                lst = ast.copy_location(ast.List(elts=[a.value.args[0]], ctx=ast.Load()), a)
+                s = ast.copy_location(ast.Return(value=ast.copy_location(ast.Call(func=s.value.func, args=[ast.copy_location(
+                    ast.BinOp(left=s.value.args[0], op=ast.Add(), right=lst), a)], keywords=[]), s)), s)
+                self.hit('N26')
             res.append(s)
         out = res
         # N5
@@ -438,6 +464,15 @@ class Canon(object):
 
     def norm_if(self, s, rest):
         """canonical statements for `s` followed by the (already canonical) statements *rest*"""
+        # N25  if C: x = True else: x = False  ->  x = C   (x = not C for the mirrored constants)
+        if len(s.body) == 1 and len(s.orelse) == 1 and all(isinstance(b, ast.Assign) and len(b.targets) == 1 and isinstance(b.targets[0], ast.Name)
+                                                            and isinstance(b.value, ast.Constant) and isinstance(b.value.value, bool) for b in (s.body[0], s.orelse[0])) \
+                and s.body[0].targets[0].id == s.orelse[0].targets[0].id and s.body[0].value.value != s.orelse[0].value.value:
+            c_ = s.test if s.body[0].value.value else self.ex.visit(negate(s.test))
+            if not _boolean(c_):
+                c_ = ast.copy_location(ast.Call(func=ast.Name(id='bool', ctx=ast.Load()), args=[c_], keywords=[]), s)
+            self.hit('N25')
+            return [ast.copy_location(ast.Assign(targets=[ast.Name(id=s.body[0].targets[0].id, ctx=ast.Store())], value=c_), s)] + rest
         if s.orelse and negative(s.test):
             s = ast.copy_location(ast.If(test=negate(s.test), body=s.orelse, orelse=s.body), s)
             self.hit('N2')
